@@ -411,6 +411,10 @@ pub fn gen_modify(r: &mut Rng, cfg: &Cfg, book: &Book, pool: &[String], exec: &s
             2 => ap.reverse(),
             _ => ap = vec![r.pick(pool).clone()],
         }
+        if r.chance(6) {
+            // blank entries: alone (a list that is not empty as a list) or among real addresses
+            if r.chance(50) { ap = vec![r.pick_s(&["", " ", "  "]).to_string()]; } else { ap.push(r.pick_s(&["", " "]).to_string()); }
+        }
         m.insert("approvers".into(), json!(ap));
     }
     if r.chance(25) {
@@ -423,6 +427,9 @@ pub fn gen_modify(r: &mut Rng, cfg: &Cfg, book: &Book, pool: &[String], exec: &s
                 }
             }
             _ => ex = vec![r.pick(pool).clone(), exec.to_string()],
+        }
+        if r.chance(6) {
+            if r.chance(50) { ex = vec![r.pick_s(&["", " ", "  "]).to_string()]; } else { ex.push(r.pick_s(&["", " "]).to_string()); }
         }
         m.insert("executors".into(), json!(ex));
     }
@@ -598,6 +605,18 @@ pub fn mutate(r: &mut Rng, w: &World, op: &mut Op) {
             1 => if let Some(c) = funds.first_mut() { c.1 = c.1.saturating_sub(1) },
             2 => funds.push(("q0".into(), 1)),
             3 => funds.clear(),
+            4 if r.chance(40) => {
+                // the ask-side twin: price one decimal finer than the precision, size x 10 (funds to match)
+                let p = body["price"].as_str().unwrap_or("1").to_string();
+                let size = body["size"].as_str().and_then(|x| x.parse::<u128>().ok()).unwrap_or(0);
+                if let (Some(fp), Some(sz)) = (finer_price(&p, prec, 1 + r.below(9)), size.checked_mul(10)) {
+                    if sz < (1u128 << 100) {
+                        body["price"] = json!(fp);
+                        body["size"] = json!(sz.to_string());
+                        for c in funds.iter_mut() { c.1 = sz; }
+                    }
+                }
+            }
             4 => { let p = body["price"].as_str().unwrap_or("1").to_string(); body["price"] = json!(bad_price(r, &p, prec)); }
             5 => { bump(body, "size", 1); for c in funds.iter_mut() { c.1 += 1; } }
             6 => { let d = alike(r, body["base"].as_str().unwrap_or("base")); body["base"] = json!(d.clone()); for c in funds.iter_mut() { c.0 = d.clone(); } }
@@ -613,6 +632,25 @@ pub fn mutate(r: &mut Rng, w: &World, op: &mut Op) {
             0 => match funds.first_mut() { Some(c) => c.1 += 1, None => funds.push((body["quote"].as_str().unwrap_or("q0").to_string(), 1)) },
             1 => if let Some(c) = funds.first_mut() { c.1 = c.1.saturating_sub(1) },
             2 => funds.push(("base".into(), 1)),
+            3 if r.chance(40) && body["fee"].is_null() => {
+                // a price one decimal finer than the precision allows, in an otherwise coherent request: ten times
+                // the size, so that price x size is still whole, quote size and funds to match - only the
+                // precision rule stands between this request and the book
+                let p = body["price"].as_str().unwrap_or("1").to_string();
+                let size = body["size"].as_str().and_then(|x| x.parse::<u128>().ok()).unwrap_or(0);
+                if let Some(fp) = finer_price(&p, prec, 1 + r.below(9)) {
+                    if let (Some(sz), Some(d)) = (size.checked_mul(10), crate::exact::parse_dec(&fp)) {
+                        if let Some(total) = d.mul_int(sz) {
+                            if total < (1u128 << 100) {
+                                body["price"] = json!(fp);
+                                body["size"] = json!(sz.to_string());
+                                body["quote_size"] = json!(total.to_string());
+                                for c in funds.iter_mut() { c.1 = total; }
+                            }
+                        }
+                    }
+                }
+            }
             3 => { let p = body["price"].as_str().unwrap_or("1").to_string(); body["price"] = json!(bad_price(r, &p, prec)); }
             4 => bump(body, "size", 1),
             5 => { bump(body, "quote_size", 1); for c in funds.iter_mut() { c.1 += 1; } }
@@ -673,7 +711,9 @@ pub fn mutate(r: &mut Rng, w: &World, op: &mut Op) {
             5 => if kind.starts_with("reject") { body["size"] = json!(r.pick(BIG_INTS).to_string()) },
             _ => if kind.starts_with("reject") { bump(body, "size", 1) },
         },
-        "modify_contract" => match which % 9 {
+        "modify_contract" => match which % 11 {
+            9 => body["executors"] = json!([r.pick_s(&["", " "])]),
+            10 => body["approvers"] = json!(["", " "]),
             0 => body["approvers"] = json!([]),
             1 => body["executors"] = json!([]),
             2 => { body["ask_fee_rate"] = json!("0.1"); if let Some(o) = body.as_object_mut() { o.remove("ask_fee_account"); } }
@@ -686,4 +726,19 @@ pub fn mutate(r: &mut Rng, w: &World, op: &mut Op) {
         },
         _ => {}
     }
+}
+
+/// `p` with its fraction padded to `prec` places and one more non-zero digit appended
+fn finer_price(p: &str, prec: usize, d: u64) -> Option<String> {
+    if !p.chars().all(|c| c.is_ascii_digit() || c == '.') || p.matches('.').count() > 1 || prec > 27 {
+        return None;
+    }
+    let (i, f) = match p.split_once('.') {
+        Some((i, f)) => (i.to_string(), f.to_string()),
+        None => (p.to_string(), String::new()),
+    };
+    if f.len() > prec || i.is_empty() {
+        return None;
+    }
+    Some(format!("{}.{:0<width$}{}", i, f, d, width = prec))
 }
